@@ -28,6 +28,7 @@ EXEMPT = {
     "pygaps.characterisation.models_thickness.load_std_isotherm": "reads the packaged standard isotherm files, whose stored representation (relative pressure, mmol/g) is part of the shipped data",
     "pygaps.characterisation.enth_sorp_whittaker.enthalpy_sorption_whittaker": "works on a model isotherm whose pressure unit is checked/converted to absolute Pa beforehand (guard + convert_pressure(mode_to='absolute', unit_to='Pa')); loadings enter only relative to n_m of the same model",
     "pygaps.characterisation.psd_kernel.psd_dft": "units are taken from the documented kernel_units argument with literal defaults (checked below)",
+    "pygaps.characterisation.initial_enth.initial_enthalpy_point": "the result is the first value of the enthalpy column (no unit-bearing read); the loading read feeds the verbose plot only",
 }
 
 
@@ -134,15 +135,149 @@ def scan_function(fi):
             yield node, f.attr, kw
 
 
+CH = "pygaps.characterisation"
+# entry points whose reads are decided by interpretation: name -> (positional arguments after the isotherm(s), keywords)
+ENTRIES = {
+    f"{CH}.area_bet.area_BET": ((), {}),
+    f"{CH}.area_lang.area_langmuir": ((), {}),
+    f"{CH}.t_plots.t_plot": ((), {"thickness_model": "Halsey"}),
+    f"{CH}.alphas_plots.alpha_s": (("<reference>",), {"reference_area": "BET"}),      # (the reference area itself comes from area_BET: its own entry)
+    f"{CH}.dr_da_plots.dr_plot": ((), {}),
+    f"{CH}.dr_da_plots.da_plot": ((), {}),
+    f"{CH}.psd_meso.psd_mesoporous": ((), {}),
+    f"{CH}.psd_micro.psd_microporous": ((), {}),
+    f"{CH}.initial_enth.initial_enthalpy_comp": (("enthalpy",), {}),
+}
+# numerical library calls that mark the end of the reading phase of entry points without a separate *_raw routine
+STOP_EXT = ("scipy.optimize.minimize", "scipy.optimize.least_squares", "scipy.stats.linregress", "numpy.average", "numpy.std", "numpy.mean", "numpy.delete")
+# where the numerical work starts: the reads are complete when one of these is entered (their results are not needed here)
+STOP_AT = ("area_bet.area_BET_raw", "area_lang.area_langmuir_raw", "t_plots.t_plot_raw", "alphas_plots.alpha_s_raw", "dr_da_plots.da_plot_raw",
+           "psd_meso.psd_pygapsdh", "psd_meso.psd_bjh", "psd_meso.psd_dollimore_heal", "psd_micro.psd_horvath_kawazoe",
+           "psd_micro.psd_horvath_kawazoe_ry")
+STORED = "<stored:"          # the stub isotherm's own labels: a read that passes one of them on is not pinned by the routine
+
+
+def _pinned_sides(method, kw):
+    """which sides of a recorded read are not pinned; kw values are the evaluated keyword arguments"""
+    def lit(v):
+        return isinstance(v, str) and not v.startswith(STORED)
+    problems = []
+    for side in READ_METHODS[method]:
+        if side == "p":
+            mode, unit = kw.get("pressure_mode"), kw.get("pressure_unit")
+            ok = (lit(mode) and mode in ("relative", "relative%")) or (lit(mode) and mode == "absolute" and lit(unit))
+            if not ok:
+                problems.append(f"pressure representation not pinned (pressure_mode={_showv(mode)}, pressure_unit={_showv(unit)})")
+        else:
+            basis, unit = kw.get("loading_basis"), kw.get("loading_unit")
+            if not (lit(basis) and lit(unit)):
+                problems.append(f"loading representation not pinned (loading_basis={_showv(basis)}, loading_unit={_showv(unit)})")
+    return problems
+
+
+def _showv(v):
+    return "absent" if v is None else (f"the isotherm's own {v[len(STORED):-1]}" if isinstance(v, str) and v.startswith(STORED) else repr(v))
+
+
+def r_pin_interpreted(ctx: Ctx, model):
+    """every entry point is run with recording stub isotherms (sample and, for alpha-s, reference) up to the point where the numerical
+    routine is entered; each recorded read must name the complete representation of every quantity it supplies or returns"""
+    import sympy as sp
+    from ..absint import ExcVal, Obj, Raised
+    from ..domain import make_interp
+    from ..libsum import Vec, install_vec
+    Sy = lambda nm: sp.Symbol(nm, positive=True)
+    nreads = 0
+    for q, (extra, kwargs) in ENTRIES.items():
+        fi = model.func(q)
+        short = q.rsplit(".", 1)[1]
+        for branch in ("ads", "des"):
+            I = make_interp(model)
+            install_vec(I)
+            I.sympy_mode = True
+            reads = []
+
+            def mkiso(role):
+                at = {f"{k}": f"{STORED}{k}>" for k in ("pressure_mode", "pressure_unit", "loading_basis", "loading_unit", "material_basis", "material_unit",
+                                                        "temperature_unit")}
+                at.update({"adsorbate": ads, "_adsorbate": ads, "material": "MAT", "temperature": Sy("T"), "_temperature": Sy("T"), "role": role,
+                           "units": {k: v for k, v in at.items()}})
+                return Obj(cls=model.cls("pygaps.core.baseisotherm.BaseIsotherm"), kind="RecIso", label=role, attrs=at)
+
+            def reader(method):
+                def f(I, v, a, k, n):
+                    reads.append((v.attrs["role"], method, dict(k), len(a)))
+                    if method.endswith("_at") and a and not isinstance(a[0], Vec):
+                        return Sy(f"{method}_{v.attrs['role']}")
+                    return Vec([Sy(f"{method[0]}{i}_{v.attrs['role']}") for i in range(3)])
+                return f
+            for mth in READ_METHODS:
+                I.libmeth[("RecIso", mth)] = reader(mth)
+            I.libmeth[("RecIso", "other_data")] = lambda I, v, a, k, n: Vec([sp.Integer(10 * (i + 1)) for i in range(3)])
+            I.libmeth[("RecIso", "has_branch")] = lambda I, v, a, k, n: True
+            ads = Obj(kind="RecAds", label="ads", attrs={"name": "ADS"})
+            for mth in ("molar_mass", "liquid_density", "surface_tension", "liquid_molar_density", "saturation_pressure", "enthalpy_vaporisation",
+                        "gas_density", "get_prop"):
+                I.libmeth[("RecAds", mth)] = (lambda mth: lambda I, v, a, k, n: Sy(f"ads_{mth}"))(mth)
+            I.libmeth[("RecAds", "get_prop")] = lambda I, v, a, k, n: Sy(f"ads_prop_{a[0]}") if a and isinstance(a[0], str) else Sy("ads_prop")
+            I.libattr[("RecAds", "properties")] = lambda I, v, n: {}
+            I.overrides["pygaps.core.adsorbate.Adsorbate.find"] = lambda I, fi_, env, n: ads
+
+            def stop(I, fi_, env, n):
+                raise Raised(ExcVal(["StopAfterReads", "BaseException"], node=n, fault=False, msg="numerical routine entered"))
+            for sfx in STOP_AT:
+                I.overrides[f"{CH}.{sfx}"] = stop
+            for ext in STOP_EXT:
+                I.ext[ext] = lambda I, a, k, n: stop(I, None, None, n)
+            if q.endswith(".alpha_s"):
+                I.overrides[f"{CH}.area_bet.area_BET"] = lambda I, fi_, env, n: {"area": Sy("A_ref")}
+                I.overrides[f"{CH}.area_lang.area_langmuir"] = lambda I, fi_, env, n: {"area": Sy("A_ref")}
+            smp, ref = mkiso("sample"), mkiso("reference")
+            args = [smp] + [ref if x == "<reference>" else x for x in extra]
+            kw = dict(kwargs, branch=branch)
+            outs = I.explore(lambda I: (reads.clear(), _call_and_stop(I, fi, args, kw), list(reads))[2])
+            done = [o for o in outs if o.kind == "ok"]
+            if not done:
+                raise AnalysisError(f"{short}(branch={branch!r}) cannot be interpreted up to its numerical routine: {[repr(o)[:160] for o in outs[:2]]}")
+            for o in done:
+                if not o.value:
+                    raise AnalysisError(f"{short}(branch={branch!r}): no isotherm read was recorded before the numerical routine")
+                for role, method, rkw, npos in o.value:
+                    nreads += 1
+                    problems = _pinned_sides(method, rkw)
+                    if rkw.get("branch") is None and npos == 0:
+                        pass        # (branch selection is C03's subject)
+                    site = f"{short}|{method}@{role}"
+                    ctx.ob(not problems, Finding("C15.R-pin", fi.where, f"{site}|" + ";".join(x.split(" (")[0] for x in problems),
+                                                 f"{short}(branch={branch!r}) reads {role}.{method}({', '.join(f'{k}={_showv(v) if isinstance(v, str) or v is None else I.describe(v)}' for k, v in sorted(rkw.items()))}): "
+                                                 + "; ".join(problems) + " - the numbers entering the analysis depend on how the isotherm happens to be stored"),
+                           nontrivial_key=("read", short, branch, role, method),
+                           sample={"rule": "R-pin", "entry": short, "read": f"{role}.{method}", "keywords": {k: str(v) for k, v in rkw.items()}})
+    ctx.floor("isotherm reads recorded while interpreting the characterisation entry points", nreads, 24)
+
+
+def _call_and_stop(I, fi, args, kw):
+    from ..absint import Raised
+    try:
+        I.call_func(fi, list(args), dict(kw), None)
+    except Raised as r:
+        if not r.exc.is_a("StopAfterReads"):
+            raise
+    return None
+
+
 def run(ctx: Ctx):
     model = load(ctx.root)
-    ctx.rule("R-pin: every isotherm read in pygaps.characterisation pins the pressure and loading representation it "
-             "needs by literals (or by the first isotherm / a documented units parameter); exceptions listed with reasons")
+    ctx.rule("R-pin: every isotherm read in pygaps.characterisation pins the pressure and loading representation it needs: the entry points "
+             "are interpreted with recording stub isotherms up to their numerical routine and the evaluated unit arguments of every read are "
+             "inspected (mode relative / relative%, or absolute with a unit; loading basis and unit; never the isotherm's own stored label); "
+             "functions outside the interpreted table fall back to literal keyword inspection; exceptions listed with reasons")
     nsites = 0
     seen_exempt = set()
     psd_sites = []
     # a private helper every (transitive) caller of which, inside its module, is an exempt function shares that exemption
     exempt = set(EXEMPT)
+    interpreted = set(ENTRIES)      # decided by r_pin_interpreted (private helpers every caller of which is interpreted are followed by it)
     for mname, m in sorted(model.modules.items()):
         if not mname.startswith(SCOPE_PREFIXES):
             continue
@@ -158,6 +293,9 @@ def run(ctx: Ctx):
                 if f_.name.startswith("_") and f_.qualname not in exempt and callers.get(f_.qualname) and callers[f_.qualname] <= exempt:
                     exempt.add(f_.qualname)
                     changed = True
+                if f_.name.startswith("_") and f_.qualname not in interpreted and callers.get(f_.qualname) and callers[f_.qualname] <= interpreted:
+                    interpreted.add(f_.qualname)
+                    changed = True
     for mname, m in sorted(model.modules.items()):
         if not mname.startswith(SCOPE_PREFIXES):
             continue
@@ -170,6 +308,8 @@ def run(ctx: Ctx):
                 if fi.qualname == "pygaps.characterisation.psd_kernel.psd_dft":
                     psd_sites.append(kind)      # units come from the kernel_units parameter: decided below by interpretation
                     continue
+                if fi.qualname in interpreted:
+                    continue        # the evaluated keyword arguments of the read are inspected by r_pin_interpreted
                 if fi.qualname in exempt:
                     seen_exempt.add(fi.qualname)
                     ctx.ob(True, nontrivial_key=("exempt", fi.qualname, kind))
@@ -190,7 +330,8 @@ def run(ctx: Ctx):
                                              " - the numbers entering the analysis depend on how the isotherm happens to be stored"),
                        nontrivial_key=("site", fi.qualname, node.lineno),
                        sample={"rule": "R-pin", "site": f"{fi.short}:{node.lineno}", "call": kind, "pinned": {k: _show(v) for k, v in kw.items()}})
-    ctx.floor("isotherm read sites in characterisation", nsites, 18)
+    ctx.floor("isotherm read sites in characterisation", nsites, 12)
+    r_pin_interpreted(ctx, model)
     from .C19 import r_isosteric_wrapper
     ctx.rule("R-pin (isosteric): isotherms stored in three different representations are all read in the representation of the first "
              "(interpreted on isosteric_enthalpy with recording stub isotherms)")
